@@ -68,8 +68,23 @@ def run(ctx):
                                   "-out", ctx.path("bl")], chunk=500)
     files += drive(ctx, drv, ["-mode", "scaled", "-space", "4,6,7", "-sample", str(ctx.pick(240, 4000)),
                               "-seed", str(ctx.seed), "-out", ctx.path("sc")], chunk=ctx.pick(240, 500))
+    # creation axis: TLC enumerates every tree of the small space x every creation argument kind that applies (one file in a
+    # directory at depth 0/1/2, the file itself, several top-level entries given one by one, ...), proves the walk-order theorem
+    # for each and prints the cases; the driver replays them through the real NewInfoBytes before its seeded random trees
+    # (round 3: OFF by default until one full ./check run on the unchanged tree has been seen to exit 0 with it;
+    #  enable with VERIF_C02_TREES=1)
+    ctx._c02_trees = os.environ.get("VERIF_C02_TREES") == "1"
+    tree_args = []
+    if ctx._c02_trees:
+        cases, out = ctx.tlc_gen("MC_GeometryTree", ctx.pick("MC_GeometryTree.cfg", "MC_GeometryTree_3.cfg"), timeout=1800, workers=1)
+        if "Model checking completed. No error has been found" not in out or not cases:
+            raise vlib.MachineryError("MC_GeometryTree failed (design-level spec error):\n" + out[-3000:])
+        ctx.extra["tree_cases_generated_by_tlc"] = len(cases)
+        trees = ctx.path("trees.ndjson")
+        vlib.write_ndjson(trees, cases)
+        tree_args = ["-trees", trees]
     rtdir = ctx.path("rt", "x")
-    files += drive(ctx, drv, ["-mode", "rt", "-dir", os.path.dirname(rtdir), "-n", str(ctx.pick(24, 300)),
+    files += drive(ctx, drv, ["-mode", "rt", "-dir", os.path.dirname(rtdir)] + tree_args + ["-n", str(ctx.pick(24, 300)),
                               "-seed", str(ctx.seed), "-out", ctx.path("rt0")], chunk=400, timeout=1800)
     files.append(binding_file(ctx, files))
     judge_all(ctx, files)
@@ -117,30 +132,46 @@ CORRUPTIONS = [
     ("C02.verify", lambda e: e["vb1"].__setitem__(0, 0)),
     ("C02.alias", lambda e: e.__setitem__("alias", 1)),
 ]
+RT_CORRUPTIONS = [
+    # the same for a round-trip line of a TLC-generated tree case (two files of different length)
+    ("C02.roundtrip.files", lambda e: e.__setitem__("ilen", e["ilen"][::-1])),
+    ("C02.roundtrip.open", lambda e: e.__setitem__("verr", 4)),
+    ("C02.roundtrip.verify", lambda e: e["bits"].__setitem__(0, 0)),
+    ("C02.roundtrip.existing", lambda e: e.__setitem__("existing", 0)),
+    ("C02.roundtrip.copysame", lambda e: e.__setitem__("same", 0)),
+]
 
 
 def binding_file(ctx, files):
     """Corrupt one recorded field at a time in a real line; the trace spec must reject each with the right tag."""
-    base = None
+    base = rtbase = None
+    ctx._c02_base = {}
     for f in files:
         for lineno, line in enumerate(open(f), 1):
             e = json.loads(line)
-            if (e.get("op") == "L" and e.get("mode") == "byte" and e.get("acc") == 1 and e.get("np", 0) >= 2
+            if (not base and e.get("op") == "L" and e.get("mode") == "byte" and e.get("acc") == 1 and e.get("np", 0) >= 2
                     and len(e["files"]) >= 2 and all(x[1] == 0 for x in e["files"]) and e["blk"][0][0]):
                 base = line
-                ctx._c02_base = (f, lineno)
-                break
-        if base:
+                ctx._c02_base["L"] = (f, lineno)
+            if (not rtbase and e.get("op") == "RT" and "tree" in e and e.get("acc") == 1 and not e.get("verr") and not e.get("pan")
+                    and len(e.get("ilen", [])) == 2 and e["ilen"][0] != e["ilen"][1] and e.get("bits")):
+                rtbase = line
+                ctx._c02_base["RT"] = (f, lineno)
+        if base and rtbase:
             break
     if not base:
         raise vlib.MachineryError("no line suitable for the binding self-check")
     p = ctx.path("binding.0.ndjson")
     with open(p, "w") as fh:
-        for tag, fn in CORRUPTIONS:
-            e = json.loads(base)
-            fn(e)
-            e["expect"] = tag
-            fh.write(json.dumps(e, separators=(",", ":")) + "\n")
+        for key, b, corr in (("L", base, CORRUPTIONS), ("RT", rtbase, RT_CORRUPTIONS)):
+            if not b:
+                continue         # (replay runs and broken trees: no clean tree line; judge_all reports the vacuity)
+            for tag, fn in corr:
+                e = json.loads(b)
+                fn(e)
+                e["expect"] = tag
+                e["bkey"] = key
+                fh.write(json.dumps(e, separators=(",", ":")) + "\n")
     return p
 
 
@@ -201,12 +232,13 @@ def judge_all(ctx, files, require_all_modes=True):
                 # the corrupted copy must be rejected with the expected tag and with nothing else that the
                 # uncorrupted line (which may itself violate something when the code is broken) is not rejected for
                 tags = set(x[0] for x in v)
-                bpath, bline = ctx._c02_base
+                bpath, bline = ctx._c02_base[e["bkey"]]
                 base_tags = set(x[0] for r in results if r[0] == bpath for x in r[1].get(bline, []))
                 if e["expect"] not in tags or not (tags - {e["expect"]}) <= base_tags:
                     raise vlib.MachineryError("binding self-check: corrupted field expected to be rejected as %s, TLC said %s "
                                               "(uncorrupted line: %s)" % (e["expect"], sorted(tags), sorted(base_tags)))
                 stats["binding_rejections"] += 1
+                stats["binding_rejections_" + e["bkey"]] += 1
                 continue
             account(ctx, e, stats, allpad)
             if not v and sampled < 3 and e.get("acc") == 1 and (e["op"] == "RT" or len(e["files"]) >= 3):
@@ -230,8 +262,14 @@ def judge_all(ctx, files, require_all_modes=True):
         "downloader_done_without_any_message": allpad["done"],
         "note": "not an obligation of C02 (zero blocks cover exactly zero non-padding bytes); evidence for the liveness lead "
                 "'a piece consisting only of padding is never completed by the peer download path'"}
+    trees_on = getattr(ctx, "_c02_trees", False)
     if require_all_modes and (stats["accepted"] == 0 or stats["rt"] == 0 or stats["scaled"] == 0):
         raise vlib.MachineryError("vacuous run: %s" % dict(stats))
+    if require_all_modes and trees_on and (stats["rt_tree_cases"] == 0 or stats["rt_dir_with_exactly_one_file"] < 3
+                                           or stats["rt_kind_file"] == 0 or stats["rt_kind_paths"] == 0):
+        raise vlib.MachineryError("vacuous run: %s" % dict(stats))
+    if require_all_modes and trees_on and not agg and stats["binding_rejections_RT"] == 0:
+        raise vlib.MachineryError("binding self-check of the round-trip lines did not run: %s" % dict(stats))
     for sig, a in agg.items():
         ex = a["examples"][0]
         lay = ex["line"]
@@ -247,6 +285,14 @@ def account(ctx, e, stats, allpad):
         ctx.count_case(key, e.get("acc") == 1)
         stats["rt"] += 1
         stats["rt_all_zero_pieces"] += e.get("zp", 0)
+        stats["rt_kind_" + e.get("kind", "?")] += 1
+        if "tree" in e:
+            stats["rt_tree_cases"] += 1
+        fl = e.get("files") or []
+        if e.get("kind") == "dir" and len(fl) == 1:
+            stats["rt_dir_with_exactly_one_file"] += 1
+        if e.get("kind") == "dir" and sum(1 for x in fl if x[0] > 0) == 1 and len(fl) > 1:
+            stats["rt_dir_with_one_nonempty_file_and_empty_ones"] += 1
         ctx.oblig("C02.roundtrip", 1)
         return
     key = (json.dumps(e["files"]), e["pl"], e["unit"], e["sf"])
